@@ -691,6 +691,10 @@ func (ke *KindEngine) eval(v ssa.Value) *AV {
 		}
 		return nil
 	case *ssa.Phi:
+		// a string grown in a loop (id += "/" + field): the number of fields is not fixed
+		if isStringType(x.Type()) && selfConcat(x) {
+			return &AV{Top: true}
+		}
 		var out *AV
 		for _, e := range x.Edges {
 			out = joinAV(out, ke.Eval(e))
@@ -1437,4 +1441,42 @@ func sortedFuncs(m map[*ssa.Function]*funcRoles, w *World) []*ssa.Function {
 	}
 	sort.Slice(fs, func(i, j int) bool { return w.FuncName(fs[i]) < w.FuncName(fs[j]) })
 	return fs
+}
+
+// selfConcat: some incoming value of the string phi is a concatenation that
+// contains the phi itself.
+func selfConcat(p *ssa.Phi) bool {
+	seen := map[ssa.Value]bool{}
+	var reach func(v ssa.Value, d int) bool
+	reach = func(v ssa.Value, d int) bool {
+		if d > 8 || seen[v] {
+			return false
+		}
+		seen[v] = true
+		switch x := v.(type) {
+		case *ssa.Phi:
+			if x == p && d > 0 {
+				return true
+			}
+			for _, e := range x.Edges {
+				if reach(e, d+1) {
+					return true
+				}
+			}
+		case *ssa.BinOp:
+			if x.Op == token.ADD && isStringType(x.Type()) {
+				return reach(x.X, d+1) || reach(x.Y, d+1)
+			}
+		}
+		return false
+	}
+	for _, e := range p.Edges {
+		if b, ok := e.(*ssa.BinOp); ok && reach(b, 1) {
+			return true
+		}
+		if q, ok := e.(*ssa.Phi); ok && q != p && reach(q, 1) {
+			return true
+		}
+	}
+	return false
 }
